@@ -32,6 +32,12 @@ func (fx *FuncExec) call(ps *pathState, x *ssa.Call) {
 		args = append(args, fx.val(st, a))
 	}
 	site := fx.callOrd[x]
+	if fx.con != nil && fx.con.Stop != "" && site == fx.con.Stop {
+		// end of a region contract: check the ensures clauses here and stop this path
+		fx.regionEnd(ps)
+		ps.stopped = true
+		return
+	}
 	// rule-site assertions before the call
 	fx.siteAsserts(ps, site, "before", nil)
 
@@ -243,7 +249,9 @@ func (fx *FuncExec) callWithContract(ps *pathState, x *ssa.Call, callee *ssa.Fun
 	for i, cl := range con.Requires {
 		t := env.boolTerm(cl.Expr)
 		fx.noteSpecErr(env, cl)
-		fx.addObl(fmt.Sprintf("pre.%s@call %s", clauseName(cl, i), site), "pre", fx.propOr(cl), cl.Text, fx.posStr(x.Pos()), false, st, t, ps.trail)
+		if fx.con == nil || !fx.con.NoSafety {
+			fx.addObl(fmt.Sprintf("pre.%s@call %s", clauseName(cl, i), site), "pre", fx.propOr(cl), cl.Text, fx.posStr(x.Pos()), false, st, t, ps.trail)
+		}
 		st.assume(t)
 	}
 	// recursion: variant decreases
@@ -540,6 +548,13 @@ func (fx *FuncExec) havocLoop(ps *pathState, li *LoopInfo) {
 				} else {
 					return PtrV{}, false
 				}
+			} else if _, isLoad := x.X.(*ssa.UnOp); isLoad {
+				// pointer loaded from a per-iteration variable
+				bp, ok := rootLoc(x.X, depth+1)
+				if !ok {
+					return PtrV{}, false
+				}
+				base = bp
 			} else {
 				return PtrV{}, false
 			}
@@ -562,6 +577,20 @@ func (fx *FuncExec) havocLoop(ps *pathState, li *LoopInfo) {
 			if bv, ok := rootVal(x, depth+1); ok {
 				if p, ok := bv.(PtrV); ok && p.Sym == "" && p.Obj != 0 {
 					return p, true
+				}
+			}
+			// pointer held in a per-iteration variable (e := &xs[i]): follow its single assignment
+			if a, ok := x.X.(*ssa.Alloc); ok && x.Op == token.MUL && definedInLoop(a) {
+				var src ssa.Value
+				n := 0
+				for _, ref := range *a.Referrers() {
+					if st, ok := ref.(*ssa.Store); ok && st.Addr == ssa.Value(a) {
+						src = st.Val
+						n++
+					}
+				}
+				if n == 1 && src != nil {
+					return rootLoc(src, depth+1)
 				}
 			}
 		}
@@ -751,6 +780,18 @@ func (fx *FuncExec) havocLoop(ps *pathState, li *LoopInfo) {
 		}
 		cur, ok := st.load(t.p)
 		if !ok {
+			// the path does not resolve (e.g. a field of an element of an array object):
+			// havoc the whole object rather than nothing
+			whole := PtrV{Obj: t.p.Obj}
+			if wc, ok2 := st.load(whole); ok2 {
+				if seq, ok3 := wc.(SeqV); ok3 {
+					st.store(whole, SeqV{Tree: fx.pk.seqTreeOf(fx.c, elemTypeOfSeq(seq), "loop[]", false), N: seq.N, Typ: seq.Typ})
+				} else if wc.Type() != nil {
+					st.store(whole, st.freshVal(wc.Type(), "loop", 0))
+				}
+			} else {
+				fx.havocHeap(st)
+			}
 			continue
 		}
 		if seq, ok := cur.(SeqV); ok {
